@@ -20,7 +20,7 @@ def run(ctx):
     hs = [list(c) for n in range(0, 4 if quick else 5) for c in itertools.product(ALPHA, repeat=n)]
     ns = [list(c) for n in range(0, 3) for c in itertools.product(ALPHA, repeat=n)]
     pairs = [(h, n) for h in hs for n in ns]
-    for i in range(100 if quick else 2000):
+    for i in range(100 if quick else 20000):
         pairs.append(([rng.choice(ALPHA) for _ in range(rng.randint(3, 5))], [rng.choice(ALPHA) for _ in range(rng.randint(1, 3))]))
     lines = ["%d %s %d %s" % (len(h), " ".join(map(str, h)), len(n), " ".join(map(str, n))) for h, n in pairs]
     for ln in lines:
